@@ -24,7 +24,7 @@ def run(ctx):
     rng = ctx.rng
     ctx.rule = ('LWE: n in 1..40 and {500,630,1023,1024,1025,2048}, operations add/sub/addmul/submul/negate/clear/trivial/copy, '
                 'p in {0,1,-1,2,INT32_MIN,INT32_MAX,random}, sample aliasing the result, guard zones around every array (out-of-range '
-                'writes show as OOB), both builds (assembly and scalar).  TLWE: N in {2,4,8,16,64,1024}, k in {1,2,3}, extraction for all j at small N. '
+                'writes show as OOB), both builds (assembly and scalar).  TLWE: N in {2,3,4,5,6,7,8,12,16,64,100,1000,1023,1024}, k in {1,2,3}, extraction for all j at small N. '
                 'distinct = distinct (operation, build, operands) cases')
     ctx.assumptions = ['tLwePhase itself goes through the FFT: compared at N=1024 within 16 units (C10), exact relations use the Karatsuba route',
                        'the variance annotation is a double: compared with the exact rule within 1e-12 relative']
@@ -54,9 +54,11 @@ def run(ctx):
                     cases.append((il, 'lwelin 8 ' + args, 'optim', meta))
             cases.append(('lwephase %d %s %s %d' % (n, ' '.join(map(str, key)), ' '.join(map(str, a1)), b1), None, 'optim', ('lwephase', key, a1, b1)))
     # TLWE
-    for N in (2, 4, 8, 16, 64, 1024):
+    for N in (2, 3, 4, 5, 6, 7, 8, 12, 16, 64, 100, 1000, 1023, 1024):          # the coefficient-domain routines take any N, not only powers of two
+        pow2 = (N & (N - 1)) == 0
         for k in (1, 2, 3):
-            if N == 1024 and k == 3 and not thorough: continue
+            if N >= 1000 and k == 3 and not thorough: continue
+            if not pow2 and k == 2 and N > 12 and not thorough: continue
             c1 = vec(rng, (k + 1) * N); c2 = vec(rng, (k + 1) * N)
             keyp = [rng.randrange(2) for _ in range(k * N)] + [0] * N
             base = '%d %d' % (k, N)
@@ -79,7 +81,7 @@ def run(ctx):
                 l = 'tlwe 5 %s %d %s' % (base, j, withkey)
                 cases.append((l, l, 'optim', ('ext', k, N, j, c1, keyp)))
                 cases.append((l, 'tlwe 15 %s %d %s' % (base, j, withkey), 'debug', ('ext', k, N, j, c1, keyp)))
-            if N >= 8:
+            if N >= 8 and pow2:
                 l = 'tlwe 16 %s 0 %s' % (base, withkey)
                 cases.append((l, 'tlwe 6 %s 0 %s' % (base, withkey), 'optim', ('phase', k, N, c1, keyp)))
             l = 'tlwe 7 %s 0 %s' % (base, withkey)
